@@ -136,6 +136,36 @@ func runC18(c *Ctx) {
 	}
 
 afterR8:
+	// ---- R14 a penalty (or ban) for a peer reaches every address the peer is connected from:
+	// no way round the loop over the peer's connections skips the penalty call — a connection
+	// the first penalty's own disconnect has just closed still names an IP that must be charged
+	for _, x := range []struct{ fn, callee string }{
+		{"pkg/p2p.(*Connection).ApplyPenalty", "addPenalty"},
+		{"pkg/p2p.(*Connection).BanPeer", "banPeer"},
+	} {
+		fn := c.Anchor(x.fn)
+		if fn == nil {
+			continue
+		}
+		isPen := func(in ssa.Instruction) bool {
+			cl, ok := in.(ssa.CallInstruction)
+			return ok && strings.HasSuffix(CalleeName(cl.Common()), "."+x.callee)
+		}
+		n := 0
+		for _, li := range naturalLoops(fn) {
+			// the loop over ConnsToPeer: its header tests an index against len(ConnsToPeer(...))
+			hdr := li.Header
+			for _, sx := range hdr.Succs {
+				if !li.Blocks[sx] {
+					continue
+				}
+				n++
+				skip := reachesBlockAvoiding(sx, hdr, isPen)
+				c.Require("C18.R14 every-connection-penalised", FuncKey(fn)+": loop over the peer's connections", p.Pos(fn.Pos()), "no iteration gets back to the loop head without having called "+x.callee, !skip, "")
+			}
+		}
+		c.MinInstances("C18.R14 every-connection-penalised "+x.callee, n, 1)
+	}
 	// ---- R12 one key function for the score/blacklist maps (writers and readers must agree)
 	{
 		n := 0
